@@ -175,19 +175,27 @@ def paired_runs(ctx, stop_first=False):
     combos = [("um", "mT", "uA"), ("nm", "uT", "nA"), ("mm", "T", "mA")] if ctx.quick else [("um", "mT", "uA"), ("nm", "uT", "nA"), ("mm", "T", "mA"), ("nm", "T", "uA"), ("um", "uT", "mA")]
     cfgs = [dict(kind="bar", B=0.4e-3, I=3e-6, screening=False), dict(kind="ring", B=0.6e-3, I=None, screening=True),
             # the applied field is re-evaluated (and re-scaled from the user's units) at every step
-            dict(kind="ring", B=0.6e-3, I=None, screening=True, td=True), dict(kind="bar", B=0.5e-3, I=2e-6, screening=False, td=True)]
+            dict(kind="ring", B=0.6e-3, I=None, screening=True, td=True), dict(kind="bar", B=0.5e-3, I=2e-6, screening=False, td=True),
+            # a non-uniform drive stated with its own current unit: the field of a 5 mA loop above the film
+            dict(kind="ring", B=None, I=None, screening=False, loop=dict(I=5e-3, R=1.5e-6, center=(0.3e-6, -0.2e-6, 1.0e-6)))]
     for cfg in cfgs:
         ref_dev = device_in_units(cfg["kind"], "um", 5, lam=(0.5 if cfg["screening"] else 2.0))
         results = []
         for lu, fu, cu in combos:
             dev = device_in_units(cfg["kind"], lu, 5, mesh_from=ref_dev, lam=(0.5 if cfg["screening"] else 2.0))
-            out = os.path.join(str(ctx.work), f"c08_{cfg['kind']}_{int(bool(cfg.get('td')))}_{int(cfg['screening'])}_{lu}_{fu}_{cu}.h5")
+            out = os.path.join(str(ctx.work), f"c08_{cfg['kind']}_{int(bool(cfg.get('td')))}_{int(bool(cfg.get('loop')))}_{int(cfg['screening'])}_{lu}_{fu}_{cu}.h5")
             if os.path.exists(out):
                 os.remove(out)
             opts = runs.options(solve_time=0.1, dt_init=5e-3, save_every=4, output_file=out, field_units=fu, current_units=cu,
                                 include_screening=cfg["screening"], screening_tolerance=1e-4)
             cur = None if cfg["I"] is None else {"source": cfg["I"] / CURRENTS[cu], "drain": -cfg["I"] / CURRENTS[cu]}
-            if cfg.get("td"):
+            if cfg.get("loop"):
+                from tdgl.sources import CurrentLoop
+
+                lp = cfg["loop"]
+                Aapp = CurrentLoop(current=lp["I"] / CURRENTS[cu], radius=lp["R"] / LENGTHS[lu], center=tuple(c_ / LENGTHS[lu] for c_ in lp["center"]),
+                                   current_units=cu, field_units=fu, length_units=lu)
+            elif cfg.get("td"):
                 from tdgl.sources import ConstantField, LinearRamp
 
                 Aapp = ConstantField(cfg["B"] / FIELDS[fu], field_units=fu, length_units=lu) * LinearRamp(tmin=0.0, tmax=0.08)
@@ -213,7 +221,7 @@ def paired_runs(ctx, stop_first=False):
             continue
         base, Kb = results[0]
         for (lu, fu, cu), (fr, Kp) in zip(combos[1:], results[1:]):
-            tag = dict(device=cfg["kind"], units=[lu, fu, cu], screening=cfg["screening"], time_dependent_field=bool(cfg.get("td")))
+            tag = dict(device=cfg["kind"], units=[lu, fu, cu], screening=cfg["screening"], time_dependent_field=bool(cfg.get("td")), current_loop_drive=bool(cfg.get("loop")))
             for fa, fb in zip(base, fr):
                 da, db = fa["data"], fb["data"]
                 errs = dict(abs_psi=float(np.abs(np.abs(da["psi"]) - np.abs(db["psi"])).max()), Js=float(np.abs(da["supercurrent"] - db["supercurrent"]).max()),
@@ -222,7 +230,7 @@ def paired_runs(ctx, stop_first=False):
                 w = max(errs.values())
                 tolr = 1e-9 if not cfg["screening"] else 1e-6  # the screening loop stops on a tolerance: iteration counts may differ by rounding
                 ctx.tol(f"paired runs, screening={cfg['screening']}", w, tolr)
-                ctx.case((cfg["kind"], bool(cfg.get("td")), cfg["screening"], lu, fu, cu, fa["step"]), nontrivial=True)
+                ctx.case((cfg["kind"], bool(cfg.get("td")), bool(cfg.get("loop")), cfg["screening"], lu, fu, cu, fa["step"]), nontrivial=True)
                 ctx.count("frame_pairs")
                 if fa["step"] != fb["step"] or w > tolr:
                     ctx.fail("unit-dependent-solution", f"step {fa['step']}: dimensionless solution differs between unit systems: {errs}", dict(tag, step=fa["step"], errs=errs))
